@@ -101,10 +101,57 @@ pub fn check(entry: &str, xb: &BigDecimal, x: &Dec, p: u64, m: Mode) -> Option<V
     }
 }
 
+/// one call preceded by another call on the same operand (same thread): the library is stateless, so the
+/// second result must be what the model says regardless of the first; a violation records the history
+pub fn check_after(entry: &str, xb: &BigDecimal, x: &Dec, first: (u64, Mode), second: (u64, Mode)) -> Option<Violation> {
+    let _ = guard(|| call(entry, xb, first.0, first.1));
+    check(entry, xb, x, second.0, second.1).map(|mut v| {
+        if let Some(o) = v.case.as_object_mut() {
+            o.insert("after".into(), serde_json::json!({"p": first.0, "mode": first.1.name()}));
+        }
+        v.attr("history", true)
+    })
+}
+
+/// call histories of length two on each operand: every ordered pair of (precision, mode) settings from
+/// `ps` x all modes, and the descending chain pmax..1 under each fixed mode
+pub fn history_pairs(run: &Run, k: u32, x: &Dec, ps: &[u64], pmax: u64, t: &mut Tally) {
+    let xb = bd(x);
+    let entry = if k == 2 { SQRT_ENTRIES[0] } else { CBRT_ENTRIES[0] };
+    t.states += 1;
+    for &p1 in ps {
+        for m1 in MODES {
+            for &p2 in ps {
+                for m2 in MODES {
+                    t.transitions += 2;
+                    t.nontrivial += 1;
+                    if let Some(v) = check_after(entry, &xb, x, (p1, m1), (p2, m2)) {
+                        run.report(v);
+                    }
+                }
+            }
+        }
+    }
+    for m in MODES {
+        for p in (1..pmax).rev() {
+            t.transitions += 2;
+            t.nontrivial += 1;
+            if let Some(v) = check_after(entry, &xb, x, (p + 1, m), (p, m)) {
+                run.report(v);
+            }
+        }
+    }
+}
+
 pub fn replay(case: &Value) -> Vec<Violation> {
     let x = jd(&case["x"]);
     let entry = case["entry"].as_str().unwrap();
     let e = SQRT_ENTRIES.iter().chain(CBRT_ENTRIES.iter()).find(|e| **e == entry).expect("unknown entry");
+    if let Some(a) = case.get("after") {
+        let first = (a["p"].as_u64().unwrap(), Mode::from_name(a["mode"].as_str().unwrap()).unwrap());
+        let second = (case["p"].as_u64().unwrap(), Mode::from_name(case["mode"].as_str().unwrap()).unwrap());
+        return check_after(e, &bd(&x), &x, first, second).into_iter().collect();
+    }
     check(e, &bd(&x), &x, case["p"].as_u64().unwrap(), Mode::from_name(case["mode"].as_str().unwrap()).unwrap()).into_iter().collect()
 }
 
